@@ -36,6 +36,8 @@ const (
 	kindLongOver = 15 // one byte more
 	kindLongPad  = 16 // acceptable length only after trimming
 	kindCtlFirst = 17 // a control byte is the first byte of the line (start of an ELF or gzip blob)
+	kindHTMLBare = 18 // the opening tag of a page split over lines: the line is exactly the prefix
+	kindDocBare  = 19 // likewise the document type declaration
 )
 
 var longLines = map[int]string{}
@@ -46,6 +48,8 @@ func init() {
 	longLines[kindLongOver] = "||" + strings.Repeat("z", 65536-2-9) + ".example^"
 	longLines[kindLongPad] = "  ||" + strings.Repeat("w", 65535-2-9-4) + ".example^  "
 	longLines[kindCtlFirst] = "\x7fELF\x02\x01"
+	longLines[kindHTMLBare] = "<html"
+	longLines[kindDocBare] = "<!DOCTYPE"
 }
 
 func lineText(k int) string {
@@ -257,6 +261,14 @@ func runParser(c *lib.Ctx) {
 		}
 		return false
 	}
+	hasBare := func(lines []int) bool {
+		for _, k := range lines {
+			if k == kindHTMLBare || k == kindDocBare {
+				return true
+			}
+		}
+		return false
+	}
 	var passes []pass
 	defer func() {
 		_ = hasCtlFirst
@@ -266,6 +278,7 @@ func runParser(c *lib.Ctx) {
 			{"all 14 kinds, <=4 lines", all, 4, nil},
 			{"boundary-length lines with 4 short kinds, <=3 lines", []int{0, 2, 5, 8, kindLongMax, kindLongOver, kindLongPad}, 3, hasLong},
 			{"a line starting with a control byte with 6 short kinds, <=3 lines", []int{0, 1, 2, 4, 5, 10, kindCtlFirst}, 3, hasCtlFirst},
+			{"a line that is exactly <html or <!DOCTYPE with 6 short kinds, <=3 lines", []int{0, 1, 2, 4, 5, 10, kindHTMLBare, kindDocBare}, 3, hasBare},
 		}
 	} else {
 		passes = []pass{
@@ -273,6 +286,7 @@ func runParser(c *lib.Ctx) {
 			{"all 14 kinds with at least one 70 KB line, <=4 lines", all, 4, hasLong},
 			{"boundary-length lines with 6 short kinds, <=3 lines", []int{0, 1, 2, 5, 8, 10, kindLongMax, kindLongOver, kindLongPad}, 3, hasLong},
 			{"a line starting with a control byte with 8 short kinds, <=4 lines", []int{0, 1, 2, 3, 4, 5, 7, 10, kindCtlFirst}, 4, hasCtlFirst},
+			{"a line that is exactly <html or <!DOCTYPE with 8 short kinds, <=4 lines", []int{0, 1, 2, 3, 4, 5, 7, 10, kindHTMLBare, kindDocBare}, 4, hasBare},
 		}
 	}
 	idx := 0
